@@ -186,6 +186,42 @@ def flow_geometric(m, I, blocks):
     return None
 
 
+def kcl_geometric(m, blocks):
+    """Kirchhoff on the printed end lines with the junctions taken from the geometry alone (structures with exactly
+    coinciding end points): at a point where k >= 2 object ends meet, the printed end currents, counted as flowing away from
+    a first end and into a second end, sum to zero.  Junctions whose earliest object meets them with its *first* end and
+    at least two further ends are the known finding (that line keeps only its last term) and are skipped.
+    Returns (violation or None, number of known-finding junctions skipped)."""
+    ends = []
+    for k, g in enumerate(m.geo):
+        for e in (0, 1):
+            if g.is_ground[e]:
+                continue
+            ends.append((tuple(float(x) for x in g.endpoints[e]), k, e))
+    nodes = {}
+    for pt, k, e in ends:
+        nodes.setdefault(pt, []).append((k, e))
+    known = 0
+    for pt, lst in nodes.items():
+        if len(lst) < 2 or len(set(k for k, _ in lst)) < len(lst):
+            continue
+        first = min(lst)
+        if first[1] == 0 and len(lst) >= 3:
+            known += 1
+            continue
+        tot = 0j
+        for k, e in lst:
+            ln = blocks[k]['lines']
+            x = ln[0] if e == 0 else ln[-1]
+            if x[0] != 'J':
+                return 'end %d of object %d lies on a junction of %d ends at %r but prints %r' % (e + 1, k + 1, len(lst), pt, x[0]), known
+            tot += (1 if e == 0 else -1) * x[1]
+        if abs(tot) > 1e-9:
+            return ('the end currents printed at the junction %r (ends %s) sum to %r, Kirchhoff requires 0'
+                    % (pt, ', '.join('%d of object %d' % (e + 1, k + 1) for k, e in lst), complex(tot))), known
+    return None, known
+
+
 def curved_flow_cases(seed):
     """closed and open structures of arcs, helices and wires (C12's list): (name, violation or None)"""
     import c12
@@ -262,11 +298,23 @@ def replay(rp):
         return 1
     from common import Driver
     d = Driver()
-    m, obs, I, blocks = evaluate(spec, rp.get('current_seed', 1))
-    r = topo.parse_model(d.ask(topo.model_request(spec, obs, m)))
-    bad, known = classify(r, blocks, obs, I)
+    try:
+        m, obs, I, blocks = evaluate(spec, rp.get('current_seed', 1))
+        r = topo.parse_model(d.ask(topo.model_request(spec, obs, m)))
+        bad, known = classify(r, blocks, obs, I)
+    except Exception as e:
+        print('replay: the implementation cannot be observed (%s: %s); judged from the report and the geometry' % (type(e).__name__, e))
+        m = topo.build_impl(spec)
+        rs = np.random.RandomState(rp.get('current_seed', 1))
+        N = len(m.pulses)
+        I = rs.randint(-9, 10, N) + 1j * rs.randint(-9, 10, N)
+        m.current = I.astype(complex)
+        blocks = parse_current_table(m.currents_as_mininec())
+        bad, known = [], []
     if not bad:
         fg = flow_geometric(m, I, blocks)
+        if not fg and not spec['fuzz']:
+            fg = kcl_geometric(m, blocks)[0]
         bad = [fg] if fg else bad
     for sc in (1e-6, 1e-13, 1e-20, 1e3):
         if not bad:
@@ -285,9 +333,33 @@ def run(ck):
     for i in range(n):
         spec = topo.gen_structure(ck.rng, max_wires=7 if ck.tier == 'quick' else 10, allow_tags=(i % 3 == 0))
         try:
+            topo.build_impl(spec)
+        except Exception as e:
+            ck.count('impl_rejected')          # the implementation does not accept the structure (e.g. duplicate wires)
+            continue
+        try:
             m, obs, I, blocks = evaluate(spec, ck.seed * 7919 + i)
         except Exception as e:
-            ck.count('impl_rejected')
+            # the structure is accepted but cannot be observed the way the tie needs it (an interface the harness reads
+            # has changed): a broken correspondence — the property is still evaluated from the printed report and the
+            # geometry alone
+            if not any('observation of the implementation failed' in str(b) for b in ck.broken):
+                ck.broken.append('observation of the implementation failed: %s: %s' % (type(e).__name__, e))
+            ck.count('observation_failed')
+            try:
+                m = topo.build_impl(spec)
+                rs = np.random.RandomState(ck.seed * 7919 + i)
+                N = len(m.pulses)
+                I = rs.randint(-9, 10, N) + 1j * rs.randint(-9, 10, N)
+                m.current = I.astype(complex)
+                blocks = parse_current_table(m.currents_as_mininec())
+                fg = flow_geometric(m, I, blocks)
+                if not fg and not spec['fuzz']:
+                    fg = kcl_geometric(m, blocks)[0]
+            except Exception as e2:
+                fg = None
+            if fg:
+                viol.append(dict(spec=spec, observed=[fg], current_seed=ck.seed * 7919 + i))
             continue
         r = topo.parse_model(d.ask(topo.model_request(spec, obs, m)))
         ck.case(topo.shape_key(spec, obs), any(len(o['conn0']) + len(o['conn1']) for o in obs['objs']),
@@ -315,6 +387,9 @@ def run(ck):
         nknown += len(known)
         if not bad:
             fg = flow_geometric(m, I, blocks)
+            if not fg and not spec['fuzz']:
+                fg = kcl_geometric(m, blocks)[0]
+                ck.count('kcl_geometric_cases')
             if fg:
                 bad = [fg]
         if not bad and i % 4 == 1:
